@@ -661,6 +661,23 @@ def run(rep):
     r02j(rep, F)
     from rules import c01
     c01.r01w(rep, F, rule='R02k', pat=('/control/planners/',), frozen=6)
+    # R02m: stored controls stay replayable -- control::PlannerData::decoupleFromPlanner clones every edge control on every call (C09's R09n,
+    # control clause, under C02's id)
+    from rules import c09
+    Fd = facts.load_units([src('base', 'src', 'PlannerData.cpp'), src('control', 'src', 'PlannerData.cpp')])
+    rep.units.update([src('base', 'src', 'PlannerData.cpp'), src('control', 'src', 'PlannerData.cpp')])
+    before = len(rep.obl)
+    c09.r09n(rep, Fd)
+    keep = [o for o in rep.obl[before:] if o['role'] == 'edge-loop-on-every-path']
+    del rep.obl[before:]
+    for o in keep:
+        o['rule'] = 'R02m'
+        rep.obl.append(o)
+    rep.nontrivial = {(('R02m' if r == 'R09n' else r), fn_, role) for (r, fn_, role) in rep.nontrivial if not (r == 'R09n' and role != 'edge-loop-on-every-path')}
+    rep.rule_text.pop('R09n', None)
+    rep.rule('R02m', 'recorded controls stay replayable after the planner is gone: control::PlannerData::decoupleFromPlanner() reaches the loop that '
+                     'clones the edge controls on every path (no early return before it), so an edge added after an earlier decoupling does not '
+                     'keep pointing at planner / caller memory')
     solves = [f for f in P.solve_functions(F) if f.name.startswith(C)]
     must, may = c03.add_summaries(F)
     c03.r03a(rep, F, solves, must, may, rule='R02s', frozen=6)
